@@ -31,7 +31,8 @@ ASSUMPTIONS = ['ignore_error and timeout are not set (piter_multiplex never sets
 RULE = ('entry points pmap / piter_fn / piter / piter_multiplex / MultiplexIterator x 1-3 inputs of 0-3 (quick) / 0-4 (thorough) '
         'elements x parallelism 1-3 x buffer sizes {0,1,2,3} (3*P for MultiplexIterator) x pool max_workers {default,1,2,3} x '
         'row function in {ident, inc, keep_even, dup, dup_odd} x failure of the input or of the function at any position x '
-        'early stop after 0-4 elements; schedules: seeded uniform-random and PCT priority schedules chosen on the REAL code, '
+        'early stop after 0-4 elements; input iterators ending with StopIteration(a) or StopIteration(a, b) (forwarded by map / bare inputs: every value must be kept); two-level piter with a generator iterator_fn or a pass-through map (which forwards the input queue\'s StopIteration(*returned)), chained queues q2.enqueue_from_iterator(q1) (oracle only); 10% directed '
+        'cases with 3-4 producers parked on a full buffer of 1-2 when an input / the function fails or the consumer stops; schedules: seeded uniform-random and PCT priority schedules chosen on the REAL code, '
         'replayed choice by choice on the Lean LTS (labels, enabled sets, per-thread pulled/received/outcome, queue.returned); '
         'non-trivial = at least 2 threads took turns at least 10 times; stage 2: the same case shapes on the real '
         'ThreadPoolExecutor, results + no surviving helper thread (join timeout = oracle failure)')
